@@ -173,7 +173,7 @@ theorem csmNext_year_big (f : Fields) (wall : Civil) (h : 2261 < wall.year) :
   rw [hff]
 
 /-- `nextFire` as one call of the loop, with floor division -/
-theorem nextFire_eq (f : Fields) (z : Zone) (prev : Int) (hp : 0 ≤ prev) :
+theorem nextFire_eq (f : Fields) (z : Zone) (prev : Int) (hp : -9223372036854775808 ≤ prev) :
     nextFire {} f z prev =
       zoneLoop {} f z (prev / 1000000000) (z.offsetAt (prev / 1000000000))
         ((((((3940 * 13 + 12) * 32 + 31) * 24 + 23) * 60 + 59) * 60 + 59) + 1)
@@ -183,7 +183,7 @@ theorem nextFire_eq (f : Fields) (z : Zone) (prev : Int) (hp : 0 ≤ prev) :
   rw [csmFuel_eq]
 
 theorem nextFire_zone_ne_outOfFuel (f : Fields) (hwf : WellFormed f = true) (z : Zone) (prev : Int)
-    (hp : 0 ≤ prev) (hz : ∀ u, -100000 ≤ z.offsetAt u ∧ z.offsetAt u ≤ 100000) :
+    (hp : -9223372036854775808 ≤ prev) (hz : ∀ u, -100000 ≤ z.offsetAt u ∧ z.offsetAt u ≤ 100000) :
     nextFire {} f z prev ≠ .outOfFuel := by
   rw [nextFire_eq f z prev hp]
   obtain ⟨hwv, _⟩ := wall0_valid (z.offsetAt (prev / 1000000000)) prev (hz _) hp
@@ -194,14 +194,14 @@ theorem nextFire_zone_ne_outOfFuel (f : Fields) (hwf : WellFormed f = true) (z :
 
 /-- an accepted result of `nextFire` -/
 theorem nextFire_ok_spec (f : Fields) (hwf : WellFormed f = true) (z : Zone) (prev : Int)
-    (hp : 0 ≤ prev) (r : Int) (h : nextFire {} f z prev = .ok r) :
+    (hp : -9223372036854775808 ≤ prev) (r : Int) (h : nextFire {} f z prev = .ok r) :
     ZoneOk f z (prev / 1000000000) (z.offsetAt (prev / 1000000000))
       (Civil.ofSeconds (prev / 1000000000 + z.offsetAt (prev / 1000000000))) r := by
   rw [nextFire_eq f z prev hp] at h
   exact (zoneLoop_spec f hwf z _ _ _ _ _ (zoneInv_init f z _ _ _)).1 r h
 
 theorem nextFire_expired_spec (f : Fields) (hwf : WellFormed f = true) (z : Zone) (prev : Int)
-    (hp : 0 ≤ prev) (h : nextFire {} f z prev = .expired) :
+    (hp : -9223372036854775808 ≤ prev) (h : nextFire {} f z prev = .expired) :
     ∀ L, Matches f L →
       Civil.lexLt (Civil.ofSeconds (prev / 1000000000 + z.offsetAt (prev / 1000000000))) L →
       ZoneRejected z (prev / 1000000000) (z.offsetAt (prev / 1000000000)) L.toSeconds := by
@@ -211,7 +211,7 @@ theorem nextFire_expired_spec (f : Fields) (hwf : WellFormed f = true) (z : Zone
 /-- the first candidate is accepted when `time.Date` and the offset at the candidate agree with the
 offset in force at prev -/
 theorem nextFire_first_accepted (f : Fields) (hwf : WellFormed f = true) (z : Zone) (prev : Int)
-    (hp : 0 ≤ prev) (hz : ∀ u, -100000 ≤ z.offsetAt u ∧ z.offsetAt u ≤ 100000) (t : Civil)
+    (hp : -9223372036854775808 ≤ prev) (hz : ∀ u, -100000 ≤ z.offsetAt u ∧ z.offsetAt u ≤ 100000) (t : Civil)
     (ht : csmNext {} f
       (Civil.ofSeconds (prev / 1000000000 + z.offsetAt (prev / 1000000000))) = some (some t))
     (hd : z.date t.toSeconds = t.toSeconds - z.offsetAt (prev / 1000000000))
